@@ -10,6 +10,59 @@ CH = ("bounded symbolic execution of the real lena code (CrossHair) with z3 deci
 
 # property -> (design section, level text, level note, technique)
 CHECKS = {
+    "C01": ("2/C01",
+            "Sequence/Source over a 15-kind element vocabulary, 6 bracketing/Source forms and flows of "
+            "symbolic ints are executed symbolically against a manual left-to-right composition that "
+            "does not use Sequence, Source, Run or flatten; ill-typed arguments must raise LenaTypeError "
+            "at construction; flatten keeps element identity and order.",
+            "vocabulary of the harness; PyDeque stub; in the quick tier the context mode and the non-flat "
+            "forms are tied to the parity of the kinds (stated in evidence.bounds).", CH),
+    "C02": ("2/C02",
+            "instrumented input iterators: pull traces of streaming pipelines, infinite sources, Split "
+            "blocks and negative Slices are compared, for every number k of results taken, with a demand "
+            "reference computed from list semantics.",
+            "a pull is a delivered value; weak-reference liveness is not claimed (tracer holds references).",
+            CH),
+    "C04": ("2/C04",
+            "Split.run / fill+compute / Zip over in-place mutating branches vs the same branch alone on a "
+            "deep copy; accumulator histories where every yielded context is poisoned and checked for "
+            "shared containers (object identity) against filled values, earlier yields and an unpoisoned twin.",
+            "flows without pre-existing aliasing; Count.compute's documented update of the filled context "
+            "is outside the statement.", CH),
+    "C05": ("2/C05",
+            "the same chain pre* acc post? is driven symbolically as Sequence.run, as a Split branch "
+            "(every bufsize) and as FillComputeSeq filled value by value; results and exception types "
+            "must agree; the adapter x element-kind x method-name matrix is checked against a table "
+            "transcribed from the adapter docstrings.",
+            "Count wrapped in FillCompute where an accumulator is meant; Mean/VarianceMeanCount on a "
+            "finite value domain; Histogram with the linear-scan cut.", CH),
+    "C09": ("2/C09",
+            "operation histories fill/compute/reset of Count, Sum, Mean, Vectorize, StoreFilled, GroupBy, "
+            "Histogram with symbolic data and contexts vs the documented aggregate and vs a fresh element "
+            "on the suffix after the last reset; VarianceMeanCount and DSum over finite tables, the DSum "
+            "precision loop for every required precision through a contract stub.",
+            "Decimal is a C boundary (table + contract stub); GroupBy group order not part of the claim.",
+            CH),
+    "C13": ("2/C13",
+            "programs of SetContext/StoreContext/UpdateContextFromStatic/MakeFilename/Write/Cache items "
+            "in 5 tree shapes (flat, nested, Split, Source) with a symbolic cut are built symbolically; "
+            "every observer must have seen the document-order fold of what precedes it, a later element "
+            "or sibling branch must not change it, unresolved keys surface as LenaKeyError, static keys "
+            "reach run-time values only through UpdateContextFromStatic.",
+            "FakeFS for Cache/Write construction; observations after an unresolved key are unspecified.",
+            CH),
+    "C14": ("2/C14",
+            "Compose vs Sequence vs nested getters and Combine for every ordered selection from a pool of "
+            "5 typed variables, symbolic data, four kinds of pre-existing context, repeated application, "
+            "variable descriptions compared with snapshots.",
+            "pool of the harness (pairwise distinct non-empty types, nested extra attributes).", CH),
+    "C15": ("2/C15",
+            "selector specifications (10 shapes over 6 leaf kinds, both raise_on_error settings, own "
+            "settings of nested selector objects) vs a reference evaluator; SelectContext; Filter; "
+            "GroupBy over every accepted (group_by, merge) subset pair of the key alphabet vs a "
+            "projection reference (two readings of 'key path' accepted).",
+            "contexts concrete per path (json.dumps); key sets listing a key on both sides are outside.",
+            CH),
     "C03": ("2/C03",
             "Split.run / fill+compute / fill+request / __call__ and Zip are executed symbolically for "
             "every branch list (8 branch kinds), bufsize, LenaStopFill index and flow of symbolic "
